@@ -221,6 +221,36 @@ ApplyPtr(st, s, B) ==
                                    !.vals[s.v[1]] = Put(16, V(1), n, IAdd(bytes, last))])
          [] s.k = "calls"     ->       \* v = <<sp, stack, data variables...>>: a call tree; functions print and return in order
                 RetD(Walk(st, s.tree, 1, 0, Idx(V(1)), s.v[2]))
+         \* byte-buffer helpers (hex/strings.fj): v = <<p, len, cells>>; len / count are hex[:n] numbers (n = w/4)
+         [] s.k = "buf_input_line" ->  \* reads bytes into the buffer until '\n' or a 0 byte (both consumed, not stored); len = how many
+                LET p == Idx(V(1))
+                    RECURSIVE Rd(_, _, _)
+                    Rd(t, cells, k) == LET r == Take(t, 8)  b == Small(r.v)
+                                       IN IF b = 0 \/ b = 10 \/ k > 64 THEN [t |-> r.st, cells |-> cells, k |-> k]
+                                          ELSE Rd(r.st, SetCell(cells, p + k, b), k + 1)
+                    z == Rd(st, V(3), 0)
+                IN RetD([z.t EXCEPT !.vals[s.v[2]] = Put(16, V(2), n, NatI(z.k)), !.vals[s.v[3]] = z.cells])
+         [] s.k = "buf_print_text" ->  \* prints len bytes of the buffer
+                LET p == Idx(V(1))  len == Small(Low(16, V(2), n))
+                IN RetD(EmitChars(st, [i \in 1..(IF len > 64 THEN 64 ELSE len) |-> Cell(V(3), p + i - 1)] \o <<>>, 1))
+         [] s.k = "buf_print_line" ->  \* prints until '\n' (printed too) or a 0 byte (not printed); len = bytes before the terminator
+                LET p == Idx(V(1))
+                    RECURSIVE Pr(_)
+                    Pr(k) == LET b == Cell(V(3), p + k)
+                             IN IF b = 0 \/ k > 64 THEN [cs |-> <<>>, k |-> k] ELSE IF b = 10 THEN [cs |-> <<10>>, k |-> k]
+                                ELSE LET z == Pr(k + 1) IN [cs |-> <<b>> \o z.cs, k |-> z.k]
+                    z == Pr(0)
+                IN RetD(EmitChars([st EXCEPT !.vals[s.v[2]] = Put(16, V(2), n, NatI(z.k))], z.cs, 1))
+         [] s.k = "buf_fill"  ->       \* v = <<p, count, value, cells>>: count bytes of the buffer := value[:2]
+                LET p == Idx(V(1))  cnt == Small(Low(16, V(2), n))  b == Small(Low(16, V(3), 2))
+                    RECURSIVE Fl(_, _)
+                    Fl(cells, k) == IF k >= cnt \/ k > 64 THEN cells ELSE Fl(SetCell(cells, p + k, b), k + 1)
+                IN RetD(SetV(st, 4, Fl(V(4), 0)))
+         [] s.k = "buf_copy"  ->       \* v = <<dst, src, count, cells>>: count bytes from *src to *dst (the ranges do not overlap)
+                LET d == Idx(V(1))  sr == Idx(V(2))  cnt == Small(Low(16, V(3), n))
+                    RECURSIVE Cp(_, _)
+                    Cp(cells, k) == IF k >= cnt \/ k > 64 THEN cells ELSE Cp(SetCell(cells, d + k, Cell(cells, sr + k)), k + 1)
+                IN RetD(SetV(st, 4, Cp(V(4), 0)))
          [] s.k = "recurse"   ->       \* v = <<cnt, sp, stack>>: f() { if (cnt == 0) return; cnt--; print 'd'; f(); print 'u' }  called once
                 LET k == Small(Low(16, V(1), 1))
                     t == [st EXCEPT !.vals[s.v[1]] = Put(16, V(1), 1, IZero),
@@ -337,7 +367,7 @@ ApplyCore(st, s, B) ==
 IOKeys == {"in_hex", "in_bytes", "in_bit", "in_as_hex", "in_dec_until", "in_idec_until", "in_dec", "in_idec", "out_hex", "out_bytes",
            "out_bit", "print_digits", "print_bits", "print_uint", "print_int", "print_dec_uint", "print_dec_int", "bit2hex", "hex2bit"}
 PtrKeys == {"ptr_add", "ptr_index", "ptr_rd", "ptr_rd_nth", "ptr_xor_from", "ptr_wr", "ptr_wr_nth", "ptr_zero", "ptr_flip_data", "ptr_jump",
-            "push", "pop", "push_n", "pop_n", "calls", "recurse", "ptr_mov"}
+            "push", "pop", "push_n", "pop_n", "calls", "recurse", "ptr_mov", "buf_input_line", "buf_print_text", "buf_print_line", "buf_fill", "buf_copy"}
 Apply(st, s, B) == IF s.k \in IOKeys THEN ApplyIO(st, s, B)
                    ELSE IF s.k \in PtrKeys THEN ApplyPtr(st, s, B)
                    ELSE LET r == ApplyCore(st, s, B) IN [st |-> r.st, br |-> r.br, dontcare |-> {}]
